@@ -208,9 +208,11 @@ theorem bandOpen_run_clean {w : World} (h : w.Clean) {b : Nat} {ver : VerClass}
   rw [World.exec_clean_resp h]
   rcases hv with rfl | rfl <;> simp [applyOp, hh]
 
-/-- `readHunk` on a clean world: a decodable hunk is returned, a missing file is `none`. -/
+/-- `readHunk` on a clean world: a decodable hunk whose entries are all usable is returned, a
+missing file is `none`. -/
 theorem readHunk_run_clean_some {w : World} (h : w.Clean) {b n : Nat} {es : List IndexEntry}
-    (hh : hunkAt w.store b n = some es) : ((readHunk b n).run w).1 = .ok (some es) := by
+    (hh : hunkAt w.store b n = some es) (hu : es.all entryUsable = true) :
+    ((readHunk b n).run w).1 = .ok (some es) := by
   unfold readHunk
   simp only [Prog.bind_def, Prog.perform, Prog.op_bind, Prog.run_op, Prog.ret_bind]
   rw [World.exec_clean_resp h]
@@ -218,7 +220,7 @@ theorem readHunk_run_clean_some {w : World} (h : w.Clean) {b n : Nat} {es : List
   split at hh
   · rename_i es' hg
     cases hh
-    simp [applyOp, hg]
+    simp [applyOp, hg, hu]
   · cases hh
 
 theorem readHunk_run_clean_none {w : World} (h : w.Clean) {b n : Nat}
